@@ -272,6 +272,11 @@ func (nfc *NfcSession) SelectAid(aid []byte) (selected bool, err error) {
 func (nfc *NfcSession) ReadBinaryFromOffset(offset, length int) ([]byte, error) {
 	slog.Debug("ReadBinaryFromOffset", "offset", offset, "length", length)
 
+	// the offset is carried in P1/P2 (2 bytes), so larger offsets cannot be addressed
+	if offset < 0 || offset > 0xFFFF {
+		return nil, fmt.Errorf("[ReadBinaryFromOffset] Offset cannot be encoded in P1/P2 (offset:%d)", offset)
+	}
+
 	var capdu *CApdu = NewCApdu(0x00, INS_READ_BINARY, byte(offset/256), byte(offset%256), nil, length)
 
 	rapdu, err := nfc.DoAPDU(capdu, fmt.Sprintf("Read Binary (offset:%d, length:%d)", offset, length))
